@@ -53,6 +53,9 @@ CHECKS['C17'] = dict(engine='M+S', tech=M_TECH + '; plus concrete sweep of the d
 CHECKS['C16'] = dict(engine='S+M', tech=S_TECH + '; ' + M_TECH,
     text='bounded verification: every decoding shape of C15 and a cross product of verification shapes (round counts incl. 20/40, tags, identity/undecodable points at every position, zero-challenge forks, mixed batches in every order with shared capacity, deviating members, statements of unusual shape through the constructor, three modes) run under catch_unwind with the model MSM asserting the real backend\'s length contracts, contents symbolic; from the MIR z3 proves for ALL usize: the round-count guard continues iff 2^rounds == full_length, compute_generator_padding, encode_usize, the promise guard, and that no rustc overflow assertion in these regions / AggregatedGensIter can fire',
     note='A3, A5; shapes enumerated, contents symbolic; Engine M call table; allocation failure out of scope', ref='§5 C16')
+CHECKS['C11'] = dict(engine='S', tech='execution of the real generator construction on model hash crates that name every hash-to-group output by (hash, input bytes, block); structural comparison with the documented derivation; one z3 bit-vector query for label injectivity',
+    text='partial claim (derivation structure only): every vector generator is block i of SHAKE256("GeneratorsChain"|G/H|LE32(party)), every blinding generator SHA3-512 of its indexed label, the value generator the basepoint; all are distinct basis elements and none the identity in the model; compressed accessors and the precomputed table (interleaved, party/index order) belong to the same points. Sizes are enumerated up to (64,32)',
+    note='A1 (distinct oracle inputs => distinct points), A5; NOT claimed: distinctness of the actual Ristretto points (concrete cryptography) and the concurrency part (see C18)', ref='§5 C11')
 NA = {
 }
 def main():
